@@ -22,6 +22,7 @@ import (
 	"github.com/vulcand/oxy/v2/buffer"
 	"github.com/vulcand/oxy/v2/cbreaker"
 	"github.com/vulcand/oxy/v2/connlimit"
+	"github.com/vulcand/oxy/v2/internal/holsterv4/clock"
 	"github.com/vulcand/oxy/v2/memmetrics"
 	"github.com/vulcand/oxy/v2/ratelimit"
 	"github.com/vulcand/oxy/v2/roundrobin"
@@ -103,20 +104,26 @@ func main() {
 		m, _ := memmetrics.NewRTMetrics()
 		var readers sync.WaitGroup
 		stop := make(chan struct{})
-		readers.Add(1)
-		go func() {
-			defer readers.Done()
-			for {
-				select {
-				case <-stop:
-					return
-				default:
-					_ = m.NetworkErrorRatio()
-					_ = m.TotalCount()
-					_ = m.NetworkErrorCount()
+		for k := 0; k < 3; k++ {
+			readers.Add(1)
+			go func() {
+				defer readers.Done()
+				for {
+					select {
+					case <-stop:
+						return
+					default:
+						_ = m.NetworkErrorRatio()
+						_ = m.TotalCount()
+						_ = m.NetworkErrorCount()
+						_ = m.ResponseCodeRatio(500, 600, 0, 600)
+						_ = m.StatusCodesCounts()
+						_, _ = m.LatencyHistogram()
+						_ = m.Export()
+					}
 				}
-			}
-		}()
+			}()
+		}
 		parallel(G, N, func(gi, i int) {
 			code := 200
 			if i%3 == 0 {
@@ -132,6 +139,49 @@ func main() {
 		if got, want := m.NetworkErrorCount(), int64(G*((N+2)/3)); got != want {
 			fail("RTMetrics.NetworkErrorCount = %d, want %d", got, want)
 		}
+	}
+
+	// 1b. the same with time moving (oxy's frozen clock, advanced concurrently): reads roll the counters forward
+	// (they zero expired buckets), so readers are writers too; only the race detector judges this phase
+	{
+		scenarios++
+		clock.Freeze(time.Now().UTC())
+		m, _ := memmetrics.NewRTMetrics()
+		stop := make(chan struct{})
+		var bg sync.WaitGroup
+		bg.Add(1)
+		go func() {
+			defer bg.Done()
+			for {
+				select {
+				case <-stop:
+					return
+				default:
+					clock.Advance(400 * time.Millisecond)
+				}
+			}
+		}()
+		for k := 0; k < 3; k++ {
+			bg.Add(1)
+			go func() {
+				defer bg.Done()
+				for {
+					select {
+					case <-stop:
+						return
+					default:
+						_ = m.NetworkErrorRatio()
+						_ = m.ResponseCodeRatio(500, 600, 0, 600)
+						_ = m.StatusCodesCounts()
+						_ = m.Export()
+					}
+				}
+			}()
+		}
+		parallel(G, N, func(gi, i int) { m.Record(200+(gi+i)%3, time.Millisecond) })
+		close(stop)
+		bg.Wait()
+		clock.Unfreeze()
 	}
 
 	// 2. circuit breaker: concurrent requests with failing responses (trips and recoveries happen under load)
